@@ -269,7 +269,11 @@ func Replay(t *testing.T, path string) error {
 	if !ok {
 		t.Fatalf("replay: unknown machine %q", rf.Machine)
 	}
-	return safely(func() error { return r(t, rf.Case) })
+	err = safely(func() error { return r(t, rf.Case) })
+	if _, known := knownHit(err); known {
+		return nil // excluded by a listed known finding (never the case when VERIF_IGNORE_KNOWN is set)
+	}
+	return err
 }
 
 func safely(f func() error) (err error) {
